@@ -179,6 +179,12 @@ func C18(c *Ctx) {
 		points  []*edwards25519.Point
 		longS   []*edwards25519.Scalar // 12 terms: calls of different lengths follow one another
 		longP   []*edwards25519.Point
+		// templates that have already been receivers of every kind of multiplication: each
+		// goroutine's private receiver is a plain Go copy (v := *tmpl) of them, i.e. a distinct
+		// value that shares whatever the type keeps behind pointers
+		tmplP *edwards25519.Point
+		tmplS *edwards25519.Scalar
+		tmplE *field.Element
 	}
 	pcB := r.Point()
 	if !validPoint(r, &pcB) {
@@ -202,6 +208,19 @@ func C18(c *Ctx) {
 		sh.Wide = append([]byte(nil), wide0...)
 		sh.scalars = []*edwards25519.Scalar{sh.S, sh.S2, sh.S}
 		sh.points = []*edwards25519.Point{sh.P, sh.Q, sh.P}
+		sh.tmplP = new(edwards25519.Point).ScalarBaseMult(sh.S2)
+		sh.tmplP.ScalarMult(sh.S, sh.tmplP)
+		sh.tmplP.VarTimeDoubleScalarBaseMult(sh.S, sh.tmplP, sh.S2)
+		sh.tmplP.MultiScalarMult(sh.scalars, sh.points)
+		sh.tmplP.VarTimeMultiScalarMult(sh.scalars, sh.points)
+		sh.tmplP.Bytes()
+		sh.tmplP.BytesMontgomery()
+		sh.tmplS = new(edwards25519.Scalar).MultiplyAdd(sh.S, sh.S2, sh.S)
+		sh.tmplS.Invert(sh.tmplS)
+		sh.tmplS.Bytes()
+		sh.tmplE = new(field.Element).Invert(sh.E)
+		sh.tmplE.SqrtRatio(sh.tmplE, sh.F)
+		sh.tmplE.Bytes()
 		for i := 0; i < 12; i++ {
 			sh.longS = append(sh.longS, []*edwards25519.Scalar{sh.S, sh.S2}[i%2])
 			sh.longP = append(sh.longP, []*edwards25519.Point{sh.P, sh.Q, sh.Q}[i%3])
@@ -211,7 +230,7 @@ func C18(c *Ctx) {
 	transcript := func(sh *shared) string {
 		sharedS, sharedS2, sharedP, sharedQ, sharedE, sharedF, sharedBytes, sharedWide, scalars, points := sh.S, sh.S2, sh.P, sh.Q, sh.E, sh.F, sh.Bytes, sh.Wide, sh.scalars, sh.points
 		var sb strings.Builder
-		var v edwards25519.Point
+		v := *sh.tmplP // private receiver: a copy by value of a used object
 		sb.Write(v.Add(sharedP, sharedQ).Bytes())
 		sb.Write(v.Subtract(sharedP, sharedQ).Bytes())
 		sb.Write(v.Negate(sharedP).Bytes())
@@ -243,7 +262,7 @@ func C18(c *Ctx) {
 		if q, err := new(edwards25519.Point).SetBytes(sharedBytes); err == nil {
 			sb.Write(q.Bytes())
 		}
-		var s edwards25519.Scalar
+		s := *sh.tmplS
 		sb.Write(s.Add(sharedS, sharedS2).Bytes())
 		sb.Write(s.Multiply(sharedS, sharedS2).Bytes())
 		sb.Write(s.MultiplyAdd(sharedS, sharedS2, sharedS).Bytes())
@@ -257,7 +276,7 @@ func C18(c *Ctx) {
 		if t, err := new(edwards25519.Scalar).SetBytesWithClamping(sharedBytes); err == nil {
 			sb.Write(t.Bytes())
 		}
-		var e field.Element
+		e := *sh.tmplE
 		sb.Write(e.Add(sharedE, sharedF).Bytes())
 		sb.Write(e.Multiply(sharedE, sharedF).Bytes())
 		sb.Write(e.Square(sharedE).Bytes())
